@@ -182,35 +182,11 @@ def check(ctx):
             ctx.ob("C15.P3", f"{cb.short}/handler-class", ok, loc(cb, h), f"handler covers Exception ({classes})" if ok else
                    f"handler {classes} does not cover all Exception subclasses")
         # completed not reachable from the exceptional edge of the user call except through nothing
-        # ---- P4
-        sb = [b for b in cb.bindings.get(scope_var, []) if b[0] == "assign"]
-        cb_fn = norm(sb[0][1].func) if sb and isinstance(sb[0][1], ast.Call) else None
-        cb_args = len(sb[0][1].args) if cb_fn else None
-        gens = [n for n in tot.own_nodes() if isinstance(n, ast.GeneratorExp)]
-        ok = False
-        why = "totals function shape not recognised"
-        if gens and isinstance(gens[0].elt, ast.Call):
-            tf = norm(gens[0].elt.func)
-            filt = [norm(c) for c in gens[0].generators[0].ifs]
-            tv = norm(gens[0].generators[0].target)
-            ok = tf == cb_fn and filt == [f"type({tv}) is Call"] and len(gens[0].elt.args) == cb_args and "nodes" in norm(gens[0].generators[0].iter)
-            why = (f"totals and reporting both use {tf}(...) over exact Call nodes" if ok else
-                   f"totals use {tf} with filter {filt}, reporting uses {cb_fn} under `type(node) is Call`: totals and reports disagree per scope")
-        ctx.ob("C15.P4", f"{tot.short}~{cb.short}", ok, loc(tot), why)
-        cnt = [c for c in tot.own_calls() if "Counter" in norm(c.func)]
-        inc = notify_calls(tot, "increment_total")[0]
-        okc = False
-        for n in tot.own_nodes():
-            if isinstance(n, ast.For) and isinstance(n.iter, ast.Call) and isinstance(n.iter.func, ast.Attribute) and n.iter.func.attr == "items" \
-                    and isinstance(n.iter.func.value, ast.Name) and isinstance(n.target, ast.Tuple) and len(n.target.elts) == 2:
-                cb_ = [b for b in tot.bindings.get(n.iter.func.value.id, []) if b[0] == "assign"]
-                from_counter = len(cb_) == 1 and isinstance(cb_[0][1], ast.Call) and "Counter" in norm(cb_[0][1].func) and gens and cb_[0][1].args and cb_[0][1].args[0] is gens[0]
-                okc = bool(from_counter) and any(x is inc for x in ast.walk(n)) and norm(arg(inc, None, "scope")) == norm(n.target.elts[0]) \
-                    and norm(arg(inc, None, "amount")) == norm(n.target.elts[1])
-        ctx.ob("C15.P4", f"{tot.short}/amount", okc, loc(tot), "amount = multiplicity of the scope among the Call nodes" if okc else "announced amount is not the multiplicity of the scope")
     ctx.floor("C15.P3", "running/finished brackets", n_br, 2)
     from .evalrules import rule_totals
     ctx.run(lambda c_: rule_totals(c_, "C15.P4", rr))
+    from .stalerules import rule_stale_totals
+    ctx.run(lambda c_: rule_stale_totals(c_, "C15.P4", rr, stale_tot))
     from .extra import rule_error_path_total
     ctx.run(rule_error_path_total, "C15.P3")
     ctx.run(E.rule_atomic_counter, "C15.P3", er)
